@@ -53,15 +53,17 @@ func FmtDiffs(input string) ([]FmtDiff, error) {
 					NewText:  "",
 				})
 			}
-		} else if diff.FromLine > lastEnd+1 {
+		} else if diff.FromLine > lastEnd {
 			// FromLine == LastEnd  means no gap
-			// FromLine == LastEnd + 1  is one line gap, OK
-			// FromLine > LastEnd + 1 should be one line
-			out = append(out, FmtDiff{
-				FromLine: lastEnd,
-				ToLine:   diff.FromLine,
-				NewText:  "\n",
-			})
+			// Any gap becomes one empty line, a gap of one line is left alone
+			// when it already is empty (and not spaces or tabs)
+			if lines.rangeLines(lastEnd, diff.FromLine) != "\n" {
+				out = append(out, FmtDiff{
+					FromLine: lastEnd,
+					ToLine:   diff.FromLine,
+					NewText:  "\n",
+				})
+			}
 		}
 		existing := lines.rangeLines(diff.FromLine, diff.ToLine)
 		if existing != diff.NewText {
